@@ -317,6 +317,10 @@ func (g *Gen) applyCall(ce callee, c *ssa.CallCommon, val ssa.Value, pos token.P
 					g.nilCheck(g.objRef(c.Args[0]), c.Args[0], pos, "call")
 				}
 			}
+			if g.canInline(ce.fn) {
+				g.inlineCall(ce.fn, args, ce.closure, results, guard)
+				return
+			}
 			// inferred frame
 			g.inferred[ce.label] = true
 			g.applyInferredFrame(ce.fn, args)
@@ -937,7 +941,7 @@ func (g *Gen) runDefers() {
 		if !g.ancestors(g.curBlk)[blk] {
 			continue
 		}
-		guard := at(blk)
+		guard := g.at(blk)
 		if blk == g.curBlk || d.Block().Dominates(g.fn.Blocks[g.curBlk]) {
 			guard = "true"
 		}
